@@ -3,7 +3,12 @@
 // (scalars; imported by Model/Json.v and so by everything) and, next to it,
 // coq/Gen/SioSpecs.v (the branch patterns of node "start" of the two service
 // specifications of package sio, as terms of the model's json type; imports
-// Model/Json.v).
+// Model/Json.v), and coq/Gen/Names.v (names the containers, the engine and
+// the renderers write or look for: the reserved destinations of cmd/mcrew's and
+// cmd/mdb's Route, the ids of sio's two service machines, the binding names
+// and the node name Spec.Step / Spec.Walk write on an error, the escape tables
+// of tools/dot.go and tools/mermaid.go; standard library only, imported by
+// Model/Step.v, Model/MCrew.v, Model/SioCrew.v, Model/ToolsText.v).
 // A literal it cannot find (the source was rewritten) is never guessed silently:
 // the value the model was last validated with is written, and the constant is
 // listed in <out>.unextracted.json.  The check driver reports the lost tie for
@@ -45,6 +50,15 @@ var pinned = map[string]string{
 		`(JObj [("cancelTimer", JStr "?id")], "cancel")]`,
 	"sio_captain_start_type":     `"message"`,
 	"sio_captain_start_branches": `[(JStr "?op", "do")]`,
+	// Gen/Names.v
+	"mcrew_route_key": `"to"`, "mcrew_route_services": `["ws"; "http"; "timers"]`,
+	"mdb_route_key": `"to"`, "mdb_route_services": `[]`,
+	"sio_captain_machine": `"captain"`, "sio_timers_machine": `"timers"`,
+	"step_action_error_key": `"actionError"`, "step_error_key": `"error"`,
+	"step_last_node_key": `"lastNode"`, "step_last_bindings_key": `"lastBindings"`, "step_error_node": `"error"`,
+	"dot_html_escapes":     `[("038"%char, "&amp;"); ("060"%char, "&lt;"); ("062"%char, "&gt;")]`,
+	"dot_id_escapes":       `[("092"%char, "\\"); ("034"%char, "\""")]`,
+	"mermaid_text_escapes": `[("035"%char, "#35;"); ("034"%char, "#quot;")]`,
 }
 
 var unextracted = map[string]string{}
@@ -401,6 +415,321 @@ func startType(fd *ast.FuncDecl, node string) string {
 	return coqStr(s)
 }
 
+// ---- names (Gen/Names.v) ----
+
+// methodDecl: the method <name> whose receiver type is <recv> or *<recv>.
+func methodDecl(f *ast.File, recv, name string) *ast.FuncDecl {
+	for _, d := range f.Decls {
+		fd, is := d.(*ast.FuncDecl)
+		if !is || fd.Name.Name != name || fd.Recv == nil || len(fd.Recv.List) != 1 {
+			continue
+		}
+		t := fd.Recv.List[0].Type
+		if se, is := t.(*ast.StarExpr); is {
+			t = se.X
+		}
+		if id, is := t.(*ast.Ident); is && id.Name == recv {
+			return fd
+		}
+	}
+	die("method %s.%s not found", recv, name)
+	return nil
+}
+
+// routeKey: the key Route looks at: the one map index with a string literal
+// in the function (m["to"]).
+func routeKey(fd *ast.FuncDecl) string {
+	var keys []string
+	ast.Inspect(fd, func(n ast.Node) bool {
+		if ie, is := n.(*ast.IndexExpr); is {
+			if s, ok := strLit(ie.Index); ok {
+				keys = append(keys, s)
+			}
+		}
+		return true
+	})
+	if len(keys) != 1 {
+		die("%s: %d map indexes with a literal key (the model's route looks at one key)", fd.Name.Name, len(keys))
+	}
+	return keys[0]
+}
+
+// routeServices: the case labels of Route's switch over the destination, in
+// source order.  The model's route knows one shape: a destination that is
+// one of the labels goes to no machine, any other goes to the machine of
+// that id (the default clause).  A switch without a default clause, a label
+// that is not a string literal, or a second switch is not that shape:
+// reported.  A Route without any switch has no reserved destination, unless
+// it compares with a string literal in some other way (reported).
+func routeServices(fd *ast.FuncDecl) []string {
+	var sws []*ast.SwitchStmt
+	cmp := false
+	ast.Inspect(fd, func(n ast.Node) bool {
+		switch x := n.(type) {
+		case *ast.SwitchStmt:
+			sws = append(sws, x)
+		case *ast.BinaryExpr:
+			if x.Op == token.EQL || x.Op == token.NEQ {
+				_, l := strLit(x.X)
+				_, r := strLit(x.Y)
+				cmp = cmp || l || r
+			}
+		}
+		return true
+	})
+	if cmp {
+		die("%s compares with a string literal outside a switch: not the shape the model's route has", fd.Name.Name)
+	}
+	if len(sws) == 0 {
+		return []string{}
+	}
+	if len(sws) != 1 || sws[0].Tag == nil {
+		die("%s: not exactly one switch over a value", fd.Name.Name)
+	}
+	out, haveDefault := []string{}, false
+	for _, st := range sws[0].Body.List {
+		cc, is := st.(*ast.CaseClause)
+		if !is {
+			continue
+		}
+		if cc.List == nil {
+			haveDefault = true
+			continue
+		}
+		for _, e := range cc.List {
+			s, ok := strLit(e)
+			if !ok {
+				die("%s: a case label is not a string literal", fd.Name.Name)
+			}
+			out = append(out, s)
+		}
+	}
+	if !haveDefault {
+		die("%s: the switch has no default clause", fd.Name.Name)
+	}
+	return out
+}
+
+func coqStrList(l []string) string {
+	qs := make([]string, len(l))
+	for i, s := range l {
+		qs[i] = coqStr(s)
+	}
+	return "[" + strings.Join(qs, "; ") + "]"
+}
+
+// pkgStringValue: the string literal a package-level var/const of the
+// package in directory <dir> is declared with, whichever file declares it.
+func pkgStringValue(dir, name string) string {
+	fset := token.NewFileSet()
+	pkgs, err := parser.ParseDir(fset, filepath.Join(repo, dir), func(fi os.FileInfo) bool {
+		return !strings.HasSuffix(fi.Name(), "_test.go")
+	}, 0)
+	if err != nil {
+		die("parse %s: %v", dir, err)
+	}
+	var found []string
+	pns := make([]string, 0, len(pkgs))
+	for pn := range pkgs {
+		pns = append(pns, pn)
+	}
+	sort.Strings(pns)
+	for _, pn := range pns {
+		fns := make([]string, 0)
+		for fn := range pkgs[pn].Files {
+			fns = append(fns, fn)
+		}
+		sort.Strings(fns)
+		for _, fn := range fns {
+			for _, d := range pkgs[pn].Files[fn].Decls {
+				gd, is := d.(*ast.GenDecl)
+				if !is {
+					continue
+				}
+				for _, sp := range gd.Specs {
+					vs, is := sp.(*ast.ValueSpec)
+					if !is {
+						continue
+					}
+					for i, id := range vs.Names {
+						if id.Name != name {
+							continue
+						}
+						if i >= len(vs.Values) {
+							die("%s.%s is declared without a value", dir, name)
+						}
+						s, ok := strLit(vs.Values[i])
+						if !ok {
+							die("%s.%s is not a string literal", dir, name)
+						}
+						found = append(found, s)
+					}
+				}
+			}
+		}
+	}
+	if len(found) != 1 {
+		die("%s.%s: %d package-level declarations", dir, name, len(found))
+	}
+	return found[0]
+}
+
+// errorWrites: what Spec.Step and Spec.Walk (core/step.go) write when a
+// stride ends in an error, read from both functions:
+//
+//	Step: bs.Extend(K1, ...); bs.Extend(K2, ...)            an action failed
+//	Step: bs.Copy().Extendm(K2, ..., K3, ..., K4, ...)      an action node followed no branch
+//	      &State{NodeName: N, ...}
+//	Walk: st.Bs.Copy().Extendm(K2, ..., K3, ..., K4, ...)   Step returned an error
+//	      st.NodeName == N ; &State{NodeName: N, ...}
+//
+// The model has one error_bindings and one error_node_literal for both
+// functions: sites that disagree are reported, not merged.
+// Every name is checked on its own: a disagreement about one does not lose the others.
+type errSite struct {
+	extend  []string   // first arguments of the calls x.Extend(<literal>, ...)
+	extendm [][]string // literal keys (arguments 0, 2, 4, ...) of the calls x.Extendm(...)
+	nodes   []string   // NodeName: <literal> in composite literals, NodeName ==/!= <literal>
+}
+
+func readErrSite(fd *ast.FuncDecl) errSite {
+	var st errSite
+	ast.Inspect(fd, func(n ast.Node) bool {
+		switch x := n.(type) {
+		case *ast.CallExpr:
+			se, is := x.Fun.(*ast.SelectorExpr)
+			if !is {
+				return true
+			}
+			switch se.Sel.Name {
+			case "Extend":
+				if len(x.Args) < 1 {
+					die("%s: Extend without arguments", fd.Name.Name)
+				}
+				s, ok := strLit(x.Args[0])
+				if !ok {
+					die("%s: Extend with a name that is not a string literal", fd.Name.Name)
+				}
+				st.extend = append(st.extend, s)
+			case "Extendm":
+				ks := []string{}
+				for i := 0; i < len(x.Args); i += 2 {
+					s, ok := strLit(x.Args[i])
+					if !ok {
+						die("%s: Extendm with a name that is not a string literal", fd.Name.Name)
+					}
+					ks = append(ks, s)
+				}
+				st.extendm = append(st.extendm, ks)
+			}
+		case *ast.KeyValueExpr:
+			if id, is := x.Key.(*ast.Ident); is && id.Name == "NodeName" {
+				if s, ok := strLit(x.Value); ok {
+					st.nodes = append(st.nodes, s)
+				}
+			}
+		case *ast.BinaryExpr:
+			if x.Op == token.EQL || x.Op == token.NEQ {
+				if se, is := x.X.(*ast.SelectorExpr); is && se.Sel.Name == "NodeName" {
+					if s, ok := strLit(x.Y); ok {
+						st.nodes = append(st.nodes, s)
+					}
+				}
+			}
+		}
+		return true
+	})
+	return st
+}
+
+type errWrites struct{ step, walk errSite }
+
+func errorWrites(f *ast.File) errWrites {
+	w := errWrites{readErrSite(methodDecl(f, "Spec", "Step")), readErrSite(methodDecl(f, "Spec", "Walk"))}
+	if len(w.step.extend) != 2 || len(w.step.extendm) != 1 || len(w.step.extendm[0]) != 3 {
+		die("Step: expected two Extend calls and one Extendm call with three names, found %v and %v", w.step.extend, w.step.extendm)
+	}
+	if len(w.walk.extend) != 0 || len(w.walk.extendm) != 1 || len(w.walk.extendm[0]) != 3 {
+		die("Walk: expected one Extendm call with three names, found %v and %v", w.walk.extend, w.walk.extendm)
+	}
+	return w
+}
+
+// the name bound first when an action failed
+func (w errWrites) actionError() string { return w.step.extend[0] }
+
+// name i of the three Step's and Walk's Extendm write (error text, node, bindings)
+func (w errWrites) extendmName(i int) string {
+	if w.step.extendm[0][i] != w.walk.extendm[0][i] {
+		die("Step writes %q where Walk writes %q: the model has one error_bindings", w.step.extendm[0][i], w.walk.extendm[0][i])
+	}
+	return w.step.extendm[0][i]
+}
+
+// the name of the error text: the second Extend of a failed action and the first name of both Extendm calls
+func (w errWrites) errName() string {
+	n := w.extendmName(0)
+	if w.step.extend[1] != n {
+		die("Step binds %q after a failed action and %q when no branch was followed: the model has one name", w.step.extend[1], n)
+	}
+	return n
+}
+
+func (w errWrites) node() string {
+	if len(w.step.nodes) == 0 || len(w.walk.nodes) == 0 {
+		die("Step or Walk names no node with a literal")
+	}
+	nodes := append(append([]string{}, w.step.nodes...), w.walk.nodes...)
+	for _, n := range nodes {
+		if n != nodes[0] {
+			die("Step and Walk name different nodes with literals: %v", nodes)
+		}
+	}
+	return nodes[0]
+}
+
+// coqAscii: a byte as a Coq ascii literal ("ddd"%char, three decimal digits).
+func coqAscii(c byte) string { return fmt.Sprintf("\"%03d\"%%char", c) }
+
+// replacerPairs: the arguments of the one strings.NewReplacer(old1, new1, ...)
+// call of the function, as [(old byte, new string); ...] in source order.
+// Model/ToolsText.v models the replacer Go builds when every old string is
+// one byte (a table indexed by byte, the first pair for a byte wins); an old
+// string of another length selects a different algorithm: reported.
+func replacerPairs(fd *ast.FuncDecl) string {
+	var calls []*ast.CallExpr
+	ast.Inspect(fd, func(n ast.Node) bool {
+		if ce, is := n.(*ast.CallExpr); is {
+			if se, is := ce.Fun.(*ast.SelectorExpr); is && se.Sel.Name == "NewReplacer" {
+				if id, is := se.X.(*ast.Ident); is && id.Name == "strings" {
+					calls = append(calls, ce)
+				}
+			}
+		}
+		return true
+	})
+	if len(calls) != 1 {
+		die("%s: %d calls of strings.NewReplacer", fd.Name.Name, len(calls))
+	}
+	args := calls[0].Args
+	if len(args) == 0 || len(args)%2 != 0 || calls[0].Ellipsis != token.NoPos {
+		die("%s: strings.NewReplacer is not given pairs of literals", fd.Name.Name)
+	}
+	items := []string{}
+	for i := 0; i < len(args); i += 2 {
+		o, ok1 := strLit(args[i])
+		n, ok2 := strLit(args[i+1])
+		if !ok1 || !ok2 {
+			die("%s: an argument of strings.NewReplacer is not a string literal", fd.Name.Name)
+		}
+		if len(o) != 1 {
+			die("%s: the old string %q is not one byte: not the byte-wise replacer the model describes", fd.Name.Name, o)
+		}
+		items = append(items, "("+coqAscii(o[0])+", "+coqStr(n)+")")
+	}
+	return "[" + strings.Join(items, "; ") + "]"
+}
+
 // writeIfChanged keeps the timestamp of an unchanged file so that make does nothing.
 func writeIfChanged(out, text string) {
 	if old, err := os.ReadFile(out); err == nil && string(old) == text {
@@ -420,7 +749,7 @@ func main() {
 	if len(os.Args) > 2 {
 		repo = os.Args[2]
 	}
-	var consts, sio strings.Builder
+	var consts, sio, names strings.Builder
 	sb := &consts
 	sb.WriteString("(* GENERATED from /repo by harness/cmd/genconsts on every run; do not edit. *)\n")
 	sb.WriteString("From Coq Require Import String List ZArith.\nImport ListNotations.\nOpen Scope string_scope.\n")
@@ -498,6 +827,39 @@ func main() {
 		return startBranches(funcDecl(captain(), "NewCaptainSpec"), "start")
 	})
 
+	// the third file: names written or looked for by the containers, the engine and the renderers
+	sb = &names
+	sb.WriteString("(* GENERATED from /repo (cmd/mcrew/service.go, cmd/mdb/mdb.go, sio/*.go, core/step.go, tools/dot.go, tools/mermaid.go)\n")
+	sb.WriteString("   by harness/cmd/genconsts on every run; do not edit.\n")
+	sb.WriteString("   *_route_key / *_route_services: the key Route looks at and the case labels of its switch (source order; no label: []).\n")
+	sb.WriteString("   sio_*_machine: the ids of the two service machines.  step_*: the binding names and the node name Spec.Step and\n")
+	sb.WriteString("   Spec.Walk write on an error.  *_escapes: the pairs given to strings.NewReplacer (old byte, new string; source order). *)\n")
+	// the scope is opened locally: the files that import Names.v keep their own order of scopes
+	sb.WriteString("From Coq Require Import String List Ascii.\nImport ListNotations.\nLocal Open Scope string_scope.\n")
+	msvc, mdb := file("cmd/mcrew/service.go"), file("cmd/mdb/mdb.go")
+	def("mcrew_route_key", "string", func() string { return coqStr(routeKey(methodDecl(msvc(), "Service", "Route"))) })
+	def("mcrew_route_services", "list string", func() string {
+		l := routeServices(methodDecl(msvc(), "Service", "Route"))
+		if len(l) == 0 {
+			die("Service.Route has no switch over reserved destinations")
+		}
+		return coqStrList(l)
+	})
+	def("mdb_route_key", "string", func() string { return coqStr(routeKey(methodDecl(mdb(), "Host", "Route"))) })
+	def("mdb_route_services", "list string", func() string { return coqStrList(routeServices(methodDecl(mdb(), "Host", "Route"))) })
+	def("sio_captain_machine", "string", func() string { return coqStr(pkgStringValue("sio", "CaptainMachine")) })
+	def("sio_timers_machine", "string", func() string { return coqStr(pkgStringValue("sio", "TimersMachine")) })
+	ew := func() errWrites { return errorWrites(step()) }
+	def("step_action_error_key", "string", func() string { return coqStr(ew().actionError()) })
+	def("step_error_key", "string", func() string { return coqStr(ew().errName()) })
+	def("step_last_node_key", "string", func() string { return coqStr(ew().extendmName(1)) })
+	def("step_last_bindings_key", "string", func() string { return coqStr(ew().extendmName(2)) })
+	def("step_error_node", "string", func() string { return coqStr(ew().node()) })
+	dot, mermaid := file("tools/dot.go"), file("tools/mermaid.go")
+	def("dot_html_escapes", "list (ascii * string)", func() string { return replacerPairs(funcDecl(dot(), "dotHTML")) })
+	def("dot_id_escapes", "list (ascii * string)", func() string { return replacerPairs(funcDecl(dot(), "dotID")) })
+	def("mermaid_text_escapes", "list (ascii * string)", func() string { return replacerPairs(funcDecl(mermaid(), "mermaidText")) })
+
 	side, _ := json.MarshalIndent(unextracted, "", " ")
 	if err := os.WriteFile(out+".unextracted.json", side, 0644); err != nil {
 		fmt.Fprintf(os.Stderr, "genconsts: %v\n", err)
@@ -508,4 +870,5 @@ func main() {
 	}
 	writeIfChanged(out, consts.String())
 	writeIfChanged(filepath.Join(filepath.Dir(out), "SioSpecs.v"), sio.String())
+	writeIfChanged(filepath.Join(filepath.Dir(out), "Names.v"), names.String())
 }
